@@ -8,6 +8,7 @@ from engine.cfg import CFG
 from engine.dataflow import ReachingDefs
 from engine.index import AnalysisError, FuncInfo, calls_in, const_str, kwarg, unparse, walk_no_nested
 from rules.common import BILLING_DATA, DAILY_DATA
+from engine.pattern import PatCtx, make_resolver
 from rules.kinds import DPU, as_freq_branches, frame_kind, mask_terms, rescale_sites
 
 
@@ -28,50 +29,61 @@ def run(chk):
     # ------------------------------------------------------------------ R08.1 clean_billing_data
     cb = chk.repo.func(DPU, "clean_billing_data")
     cfg = CFG(cb.node)
+    P, IV = cb.params[0], cb.params[1]  # the frame and the interval name (positional API)
+    res, _so = make_resolver(cb.node)
+    pc = PatCtx(cb.node)
+    ok_len = pc.has(f"_F_ = pd.Series(list(({P}.index[1:] - {P}.index[:-1]).days) + [np.nan], index={P}.index)")
+    r1.require(ok_len, f"{cb.key}|period-length", cb.where(),
+               "period length must be the forward difference of the read dates in days, aligned on the period's start (NaN for the open last period)")
+    F = pc.name("_F_", "filter_")
     spec = {"billing_monthly": (25.0, 35.0), "billing_bimonthly": (25.0, 70.0)}
     found: Dict[str, Dict[str, object]] = {}
     for s in cfg.stmts():
-        gl = [const_str(t.comparators[0]) for t, pol in cfg.guards(s) if pol and isinstance(t, ast.Compare) and unparse(t.left) == "source_interval" and isinstance(t.ops[0], ast.Eq)]
+        gl = [const_str(t.comparators[0]) for t, pol in cfg.guards(s) if pol and isinstance(t, ast.Compare) and unparse(t.left) == IV and isinstance(t.ops[0], ast.Eq)]
         if not gl:
             continue
         iv = gl[0]
-        if isinstance(s, ast.Assign) and unparse(s.targets[0]) == "data" and isinstance(s.value, ast.Call) and isinstance(s.value.func, ast.Attribute) and s.value.func.attr == "reindex":
+        if isinstance(s, ast.Assign) and unparse(s.targets[0]) == P and isinstance(s.value, ast.Call) and isinstance(s.value.func, ast.Attribute) and s.value.func.attr == "reindex" \
+                and [unparse(a) for a in s.value.args] == [f"{P}.index"]:
             sub = s.value.func.value
-            if isinstance(sub, ast.Subscript):
-                found.setdefault(iv, {})["keep"] = (mask_terms(sub.slice), s)
-        if isinstance(s, ast.If) and "len(data[" in unparse(s.test):
-            sub = [n for n in ast.walk(s.test) if isinstance(n, ast.Subscript) and unparse(n.value) == "data"]
-            if sub:
-                found.setdefault(iv, {})["warn"] = (mask_terms(sub[0].slice), s)
+            if isinstance(sub, ast.Subscript) and unparse(sub.value) in (P, P + ".loc"):
+                found.setdefault(iv, {})["keep"] = (mask_terms(sub.slice, res, s), s)
+        if isinstance(s, ast.If):
+            sub = [n for n in ast.walk(s.test) if isinstance(n, ast.Subscript) and unparse(n.value) in (P, P + ".loc") and mask_terms(n.slice, res, s) is not None]
+            if sub and any(isinstance(c, ast.Call) and unparse(c.func).endswith("warnings.append") for b in s.body for c in ast.walk(b)):
+                found.setdefault(iv, {})["warn"] = (mask_terms(sub[0].slice, res, s), s)
     for iv, (lo, hi) in spec.items():
         k = found.get(iv, {}).get("keep")
         w = found.get(iv, {}).get("warn")
-        want_keep = ("and", {("filter_", "<=", hi), ("filter_", ">=", lo)})
-        want_warn = ("or", {("filter_", ">", hi), ("filter_", "<", lo)})
+        want_keep = ("and", {(F, "<=", hi), (F, ">=", lo)})
+        want_warn = ("or", {(F, ">", hi), (F, "<", lo)})
         r1.require(k is not None and k[0] == want_keep, f"{cb.key}|{iv}|keep", cb.where(k[1]) if k else cb.where(),
                    f"clean_billing_data ({iv}): periods kept must be {lo:g} <= days <= {hi:g}; found {k[0] if k else None}", sample={"interval": iv, "keep": sorted(k[0][1]) if k and k[0] else None})
         r1.require(w is not None and w[0] == want_warn, f"{cb.key}|{iv}|warn", cb.where(w[1]) if w else cb.where(),
                    f"clean_billing_data ({iv}): the off-cycle warning must fire on the complement (days > {hi:g} or days < {lo:g}); found {w[0] if w else None}")
-    t = unparse(cb.node)
-    r1.require("diff = list((data.index[1:] - data.index[:-1]).days)" in t and "filter_ = pd.Series(diff + [np.nan], index=data.index)" in t, f"{cb.key}|period-length", cb.where(),
-               "period length must be the forward difference of the read dates in days, aligned on the period's start")
     # downsample 50 % rule
     ds = chk.repo.func(DPU, "downsample_and_clean_daily_data")
-    t = unparse(ds.node)
+    D = ds.params[0]
+    dres, _so = make_resolver(ds.node)
+    dpc = PatCtx(ds.node)
     masks = []
     for n in ast.walk(ds.node):
-        if isinstance(n, ast.Subscript) and unparse(n.value) in ("dataset", "dataset.loc"):
+        if isinstance(n, ast.Subscript) and unparse(n.value) in (D, D + ".loc"):
             sl = n.slice.elts[0] if isinstance(n.slice, ast.Tuple) else n.slice
-            m = mask_terms(sl)
+            st = dpc.stmt_of(n) if dpc.stmt_of else None
+            m = mask_terms(sl, dres, st)
             if m is not None:
                 masks.append((m, n))
     kinds = {tuple(sorted(m[1])) for m, n in masks}
-    r1.require(kinds == {(("dataset.coverage", "<=", 0.5),), (("dataset.coverage", ">", 0.5),)}, f"{ds.key}|coverage-masks", ds.where(),
+    r1.require(kinds == {((f"{D}.coverage", "<=", 0.5),), ((f"{D}.coverage", ">", 0.5),)}, f"{ds.key}|coverage-masks", ds.where(),
                f"downsample_and_clean_daily_data must use exactly the complementary masks coverage > 0.5 (keep) and coverage <= 0.5 (warn); found {sorted(kinds)}", sample={"masks": sorted(map(str, kinds))})
     rets = [s for s in walk_no_nested(ds.node) if isinstance(s, ast.Return)]
-    r1.require(len(rets) == 1 and unparse(rets[0].value) == "dataset[dataset.coverage > 0.5].reindex(dataset.index)[['value']]", f"{ds.key}|returns-kept-reindexed", ds.where(),
+    ok_ret = len(rets) == 1 and (dpc.has(f"return {D}[{D}.coverage > 0.5].reindex({D}.index)[['value']]", bind=False)
+                                 or dpc.has(f"return {D}.loc[{D}.coverage > 0.5].reindex({D}.index)[['value']]", bind=False)
+                                 or dpc.has(f"return {D}[{D}['coverage'] > 0.5].reindex({D}.index)[['value']]", bind=False))
+    r1.require(ok_ret, f"{ds.key}|returns-kept-reindexed", ds.where(),
                "days covered for half or less must come back missing: return dataset[coverage > 0.5].reindex(dataset.index)[['value']]")
-    r1.require("dataset = as_freq(dataset, 'D', include_coverage=True)" in t, f"{ds.key}|daily-cumulative", ds.where(), "sub-daily usage must be aggregated with as_freq(..., 'D', include_coverage=True) (cumulative)")
+    r1.require(dpc.has(f"{D} = as_freq({D}, 'D', include_coverage=True)", bind=False), f"{ds.key}|daily-cumulative", ds.where(), "sub-daily usage must be aggregated with as_freq(..., 'D', include_coverage=True) (cumulative)")
     # granularity cut points
     cg = chk.repo.func(DPU, "compute_minimum_granularity")
     gd = [n for n in ast.walk(cg.node) if isinstance(n, ast.Dict) and len(n.keys) == 4]
@@ -108,16 +120,20 @@ def run(chk):
                f"as_freq(series_type='instantaneous') must aggregate with mean; found {br.get('instantaneous')}", sample={"branch": "instantaneous", "aggregators": br.get("instantaneous")})
     d = af.param_defaults().get("series_type")
     r2.require(d is not None and const_str(d) == "cumulative", f"{af.key}|default-cumulative", af.where(), "as_freq's default series_type must be cumulative (meter data)")
-    t = unparse(af.node)
-    r2.require("resampled['coverage'] = n_coverage / n_total" in t, f"{af.key}|coverage-definition", af.where(), "coverage must be the number of atomic samples present divided by the number in the period")
-    r2.require("resampled = resampled[resampled_with_nans.notnull()].reindex(resampled.index)" in t, f"{af.key}|all-missing-stays-missing", af.where(), "a target period with no data must stay missing (sum of nothing is not 0 usage)")
+    from rules.kinds import as_freq_names
+    nm = as_freq_names(chk)
+    r2.require(bool(nm), f"{af.key}|coverage-definition", af.where(), "coverage must be the number of atomic samples present divided by the number in the period")
+    R = nm.get("R", "resampled")
+    mpc = PatCtx(af.node, bindings={"_R_": R})
+    r2.require(mpc.has("_R_ = _R_[_AS_.resample(freq, origin=_S_.index[0]).first().notnull()].reindex(_R_.index)"), f"{af.key}|all-missing-stays-missing", af.where(),
+               "a target period with no data must stay missing (sum of nothing is not 0 usage): the sums are kept only where the period's first atomic sample is present, then reindexed")
     sites = rescale_sites(chk, ds)
     r2.require(len(sites) == 1, f"{ds.key}|rescale-present", ds.where(), "a day covered for more than half must be scaled by 1/coverage: dataset.value / dataset.coverage on the kept rows")
     for s, base in sites:
         kinds_ = frame_kind(chk, ds, s, base, br)
         r2.require(kinds_ == {"sum"}, f"{ds.key}|rescale-on-sum", ds.where(s), f"value/coverage in downsample_and_clean_daily_data is applied to a frame of kind {sorted(kinds_)} (must be a sum)")
-        tgt = s.targets[0]
-        ok = isinstance(tgt, ast.Subscript) and unparse(tgt).replace('"', "'") == "dataset.loc[dataset.coverage > 0.5, 'value']" and "dataset[dataset.coverage > 0.5].value / dataset[dataset.coverage > 0.5].coverage" in unparse(s.value)
+        ok = any(dpc.has(f"{D}.loc[{D}.coverage > 0.5, 'value'] = {D}{a}[{D}.coverage > 0.5].value / {D}{b}[{D}.coverage > 0.5].coverage", bind=False) for a in ("", ".loc") for b in ("", ".loc")) \
+            or dpc.has(f"{D}.loc[{D}.coverage > 0.5, 'value'] = {D}.loc[{D}.coverage > 0.5, 'value'] / {D}.loc[{D}.coverage > 0.5, 'coverage']", bind=False)
         r2.require(ok, f"{ds.key}|rescale-on-kept-rows", ds.where(s), "the 1/coverage scaling must be applied to exactly the kept rows (coverage > 0.5), value column only")
     # no other function divides usage by coverage
     n_other = 0
@@ -132,15 +148,16 @@ def run(chk):
     r2.inst(f"package|other-rescale-sites={n_other}")
 
     # ------------------------------------------------------------------ R08.3
-    t = unparse(af.node)
-    r3.require("timedeltas = (series.index[1:] - series.index[:-1]).append(pd.TimedeltaIndex([pd.NaT]))" in t, f"{af.key}|own-forward-interval", af.where(),
+    apc = PatCtx(af.node)
+    SER = af.params[0]
+    r3.require(apc.has(f"_S_ = remove_duplicates({SER})"), f"{af.key}|dedup", af.where(), "as_freq must de-duplicate its input first")
+    r3.require(apc.has("_TD_ = (_S_.index[1:] - _S_.index[:-1]).append(pd.TimedeltaIndex([pd.NaT]))"), f"{af.key}|own-forward-interval", af.where(),
                "each reading's interval must be the forward difference to the next timestamp (the last interval is open)")
-    r3.require("spread_factor = target_freq.total_seconds() / timedeltas.total_seconds()" in t and "series_spread = series * spread_factor" in t, f"{af.key}|spread-factor", af.where(),
-               "a reading must be spread as value * (atomic interval / own interval)")
-    r3.require("atomic_series = series_spread.asfreq(atomic_freq, method='ffill')" in t, f"{af.key}|constant-rate", af.where(), "the spread rate must be carried forward over the reading's interval (ffill)")
-    r3.require("series = remove_duplicates(data_series)" in t, f"{af.key}|dedup", af.where(), "as_freq must de-duplicate its input first")
+    r3.require(apc.has("_AS_ = (_S_ * (pd.Timedelta(atomic_freq).total_seconds() / _TD_.total_seconds())).asfreq(atomic_freq, method='ffill')"), f"{af.key}|spread-factor", af.where(),
+               "a reading must be spread as value * (atomic interval / own interval) and the rate carried forward over the reading's interval (asfreq(atomic_freq, method='ffill'))")
+    r3.inst(f"{af.key}|constant-rate")
     bm = chk.repo.func(BILLING_DATA, "_BillingData._compute_meter_value_df")
-    t = unparse(bm.node)
-    r3.require("meter_value_df = as_freq(meter_value_df['value'], 'D').to_frame('value')" in t and "meter_value_df = meter_value_df[:-1]" in t, f"{bm.key}|spread-to-days", bm.where(),
-               "billing usage must be spread to days with the cumulative branch and the open-ended final row dropped")
-    r3.require("meter_series[end_date + pd.Timedelta(days=1)] = np.nan" in t, f"{bm.key}|final-nan-convention", bm.where(), "the final period must be closed by a NaN row one day after the last covered day")
+    bpc = PatCtx(bm.node)
+    r3.require(bpc.has("_M_ = as_freq(_M_['value'], 'D').to_frame('value')") and bpc.has("_M_ = _M_[:-1]", bind=False), f"{bm.key}|spread-to-days", bm.where(),
+               "billing usage must be spread to days with the cumulative branch (default atoms) and the open-ended final row dropped")
+    r3.require(bpc.has("_MS_[_E_ + pd.Timedelta(days=1)] = np.nan"), f"{bm.key}|final-nan-convention", bm.where(), "the final period must be closed by a NaN row one day after the last covered day")
